@@ -1303,6 +1303,42 @@ fn main() {
                 println!("{}_get={}", key, if db.get(ReadOptions::default(), key.as_bytes()).is_ok() { "found" } else { "missing" });
             }
         }
+        // identical_concurrent_writes : writer A is parked after its log append (forced schedule); writer B issues the identical put
+        // (same key, value, options) from another thread and queues behind it; afterwards a third put. Each write must get its own
+        // sequence number: a snapshot taken before and one after show three new sequence numbers
+        "identical_concurrent_writes" => {
+            use raindb::{ReadOptions, WriteOptions};
+            let mut o = raindb::DbOptions::with_memory_env();
+            o.db_path = "db".to_string();
+            o.create_if_missing = true;
+            let db = std::sync::Arc::new(raindb::DB::open(o).expect("open"));
+            db.put(WriteOptions::default(), b"other".to_vec(), b"0".to_vec()).unwrap();
+            let before = db.get_snapshot();
+            let fired = std::sync::Arc::new(std::sync::atomic::AtomicBool::new(false));
+            let second_ok: std::sync::Arc<std::sync::Mutex<Option<bool>>> = Default::default();
+            let handle: std::sync::Arc<std::sync::Mutex<Option<std::thread::JoinHandle<()>>>> = Default::default();
+            let (db2, fired2, ok2, h2) = (std::sync::Arc::clone(&db), std::sync::Arc::clone(&fired), std::sync::Arc::clone(&second_ok), std::sync::Arc::clone(&handle));
+            v::set_sched_hook(Some(std::sync::Arc::new(move |name: &str| {
+                if name == "write.after_wal" && !fired2.swap(true, std::sync::atomic::Ordering::SeqCst) {
+                    let (db3, ok3) = (std::sync::Arc::clone(&db2), std::sync::Arc::clone(&ok2));
+                    *h2.lock().unwrap() = Some(std::thread::spawn(move || {
+                        let r = db3.put(WriteOptions::default(), b"same".to_vec(), b"x".to_vec());
+                        *ok3.lock().unwrap() = Some(r.is_ok());
+                    }));
+                    std::thread::sleep(std::time::Duration::from_millis(500));
+                }
+            })));
+            let first_ok = db.put(WriteOptions::default(), b"same".to_vec(), b"x".to_vec()).is_ok();
+            if let Some(h) = handle.lock().unwrap().take() {
+                let _ = h.join();
+            }
+            v::set_sched_hook(None);
+            let third_ok = db.put(WriteOptions::default(), b"same".to_vec(), b"y".to_vec()).is_ok();
+            let after = db.get_snapshot();
+            println!("both_ok={}", first_ok && second_ok.lock().unwrap().unwrap_or(false) && third_ok);
+            println!("sequence_numbers_used={}", v::snapshot_sequence(&after) - v::snapshot_sequence(&before));
+            println!("final={}", db.get(ReadOptions::default(), b"same").map(|v| String::from_utf8_lossy(&v).to_string()).unwrap_or_default());
+        }
         // sched_get_race : while a get is in its unlocked section, the memtable is rotated and flushed
         "sched_get_race" => {
             use raindb::{ReadOptions, WriteOptions};
@@ -1403,6 +1439,35 @@ fn main() {
                     Err(e) => println!("get_after_damage=Err({})", format!("{:?}", e).chars().take(60).collect::<String>()),
                 },
             }
+        }
+        // get_unopenable_newest : one key with a version in each of three table files; after a reopen (cold table cache) the file system
+        // refuses to open the newest table once: the read must fail (or return v3), never return an older version or "not found"
+        "get_unopenable_newest" => {
+            use raindb::{ReadOptions, WriteOptions};
+            let fs = rdbv::faultfs::FaultFs::new();
+            let mut o = raindb::DbOptions::with_memory_env();
+            o.filesystem_provider = std::sync::Arc::new(fs.clone());
+            o.db_path = "db".to_string();
+            o.create_if_missing = true;
+            {
+                let db = raindb::DB::open(o.clone()).expect("open");
+                for val in ["v1", "v2", "v3"] {
+                    db.put(WriteOptions::default(), b"key".to_vec(), val.as_bytes().to_vec()).unwrap();
+                    let _ = db.flush_for_verif();
+                }
+            }
+            let nums = v::table_numbers(&o);
+            let newest = *nums.last().expect("a table");
+            let db = raindb::DB::open(o.clone()).expect("reopen");
+            fs.fail_open(&format!("{}.rdb", newest));
+            let show = |r: Result<Vec<u8>, raindb::errors::RainDBError>| match r {
+                Ok(v) => format!("Ok({})", String::from_utf8_lossy(&v)),
+                Err(raindb::errors::RainDBError::KeyNotFound) => "Err(KeyNotFound)".to_string(),
+                Err(e) => format!("Err({})", format!("{:?}", e).chars().take(50).collect::<String>()),
+            };
+            println!("get_with_unopenable_newest={}", show(db.get(ReadOptions::default(), b"key")));
+            fs.fail_open("");
+            println!("get_afterwards={}", show(db.get(ReadOptions::default(), b"key")));
         }
         "log_reopen_len_fault" => {
             // a log with one record is reopened for appending while the size query on the new handle fails
